@@ -41,6 +41,11 @@ def invalid_value(cat, rng):
             cands += ["Red", "notacolour", "#ff0000", "grey101", "bleu"]
         if cat == "just":
             cands = ["x", "L", "left", "cc", "m", "q"]
+        # two legal keywords run together are not a legal keyword (substring tests against a joined alphabet accept them)
+        legal = [g for g in good if g]
+        if len(legal) >= 2 and cat != "format":      # (format letters combine freely: "bi" is legal)
+            a, b2 = rng.sample(legal, 2)
+            cands += [a + b2, b2 + a, "".join(legal[:3]), "".join(legal)]
         v = rng.choice(cands)
         while v in good:
             v = v + "?"
@@ -130,6 +135,12 @@ def attempt(row, rng, tmp):
         with open(good, "wb") as f:
             f.write(b"\x89PNG\r\n\x1a\n" + b"\x00" * 30)
         missing = os.path.join(tmp, "missing%d.png" % rng.randint(0, 999))
+        if rng.random() < 0.5:
+            # a file that existed, was accepted by an earlier construction in this process, and has been deleted since
+            with open(missing, "wb") as f:
+                f.write(b"\x89PNG\r\n\x1a\n" + b"\x00" * 30)
+            rtf.RTFFigure(figures=missing)
+            os.remove(missing)
         val = rng.choice([missing, [good, missing], [missing, good]])
         return {"outcome": _classify(lambda: rtf.RTFFigure(figures=val)), "control": _classify(lambda: rtf.RTFFigure(figures=good)) == "accepted", "value": repr(val)[-80:]}
     if cat == "missing_column":
